@@ -542,6 +542,30 @@ func main() {
 			}
 		}
 	}
+	// what the plugin says must reach the callbacks byte for byte too: message
+	// texts, prompts and button labels drawn from the same alphabet of texts
+	textConvs := 0
+	for machine := range [][]msg{recipientAlphabet(), identityAlphabet()} {
+		for a, text := range answers {
+			label := text
+			if label == "" {
+				label = " "
+			}
+			ms := []msg{
+				st(fmt.Sprintf("msg-text%d", a), "msg", nil, []byte(text)),
+				st(fmt.Sprintf("request-secret-text%d", a), "request-secret", nil, []byte(text)),
+				st(fmt.Sprintf("request-public-text%d", a), "request-public", nil, []byte(text)),
+				st(fmt.Sprintf("confirm2-text%d", a), "confirm", []string{refage.B64([]byte(label)), refage.B64([]byte(label + "!"))}, []byte(text)),
+				st(fmt.Sprintf("confirm1-text%d", a), "confirm", []string{refage.B64([]byte(label))}, []byte(text)),
+			}
+			for mi, m := range ms {
+				convs = append(convs, &conv{machine: machine, ui: uiCfg{1, 1, 1 + (a+mi)%2, (a + 1) % len(answers)}, msgs: []msg{m, terminals[0]}, id: len(convs),
+					bytewise: (a+mi)%7 == 3})
+				textConvs++
+			}
+		}
+	}
+	r.Set("conversations_text_alphabet_towards_callbacks", textConvs)
 	// WaitTimer: a 5.5 s silence must trigger the callback, a fast conversation must not
 	nTimer := r.Pick(1, 3)
 	for i := 0; i < nTimer; i++ {
